@@ -191,16 +191,18 @@ def _c16_ids(name):
     return lab in ("IG1", "IG2", "IG3", "SK1") or lab.startswith("gen.") or lab.startswith("skip.") or lab.endswith("IdGenerator::gen.safety") or "skip" in lab
 
 
-prop("C16", ["toposort", "rq_tables", "ids_names", "lower_cols"], select={"ids_names": _c16_ids},
+prop("C16", ["toposort", "rq_tables", "ids_names", "lower_cols", "rq_shape"], select={"ids_names": _c16_ids},
      not_covered="visibility of ids across joins / sub-pipelines (redirect_mappings over node_mapping: HashMap<usize, LoweredTarget>), lower_expr, "
-                 "push_select, create_a_table_instance; toposort()'s Key->index map and driver loop")
+                 "how push_select collects its columns, create_a_table_instance; toposort()'s Key->index map and driver loop")
 claim("C16",
       "PARTIAL. Proved on the real code: Toposort::visit (the recursive DFS, verbatim) terminates, never panics, and on success keeps the invariant "
       "'every dependency of a listed node is listed EARLIER' while only appending to the order (TS0-TS4) - the 'declared earlier in the table list' "
       "clause for the order toposort_tables uses; lower_to_ir emits exactly the lowering buffer, in that order (RT1, RT2); column / table ids are "
       "handed out strictly increasing and above every loaded id, so no id is defined twice by the generators (IG1-3, SK1); declare_as_column (verbatim) returns the "
       "recorded column for an expression lowered before and emits nothing, otherwise appends at most ONE Compute, whose id is the generator's next (fresh) id, and "
-      "records the node -> column mapping (lower_cols DC1-4). NOT proved: visibility of "
+      "records the node -> column mapping (lower_cols DC1-4); push_select closes the pipeline with a Select of exactly the ids of the declared columns, in order, "
+      "and returns those columns (rq_shape PS1-3); a column merged by `append` keeps referring to the top pipeline's expression and is named by the top, else the bottom "
+      "(AP1-2). NOT proved: visibility of "
       "every used id at its point of use (cid redirection through hash maps), select arity.",
       "toposort()'s HashMap index / outer loop, lower_table_decl and the Lowerer's node_mapping are not under contract.")
 
@@ -225,7 +227,7 @@ def _safety(name):
 
 
 _ALL_UNITS = ["take_range", "sort_take", "split_order", "window_frame", "dialect_select", "ident_quote", "ids_names", "toposort", "rq_tables",
-              "select_shape", "span_units", "sql_prec", "prql_prec", "literals", "set_ops", "desugar", "resolve_guards", "lex_strings", "limit_clause", "static_eval", "operator_tpl", "rel_names", "lower_cols", "vec_utils", "group_take", "flatten_sort", "star_exclude", "std_arity", "limit_select"]
+              "select_shape", "span_units", "sql_prec", "prql_prec", "literals", "set_ops", "desugar", "resolve_guards", "lex_strings", "limit_clause", "static_eval", "operator_tpl", "rel_names", "lower_cols", "vec_utils", "group_take", "flatten_sort", "star_exclude", "std_arity", "limit_select", "rq_shape"]
 prop("C12", _ALL_UNITS, select={u: _safety for u in _ALL_UNITS},
      not_covered="every function that is not under contract (~150 unwrap/expect sites, todo!() in type_intersection, panic!(cannot find cid) in lookup_cid), "
                  "recursion depth, chumsky, time bounds")
